@@ -519,9 +519,21 @@ fn macro_scenarios(rep: &mut Report) {
         ("[x0==1,false]", G::Conj(0, vec![G::Eq(0, 1), G::Fail]), mk!(x0, x1, x2, proto_vulcan!([x0 == 1, false])), false),
         ("x0!=1,conde", G::Conj(0, vec![G::Ne(vec![(A::V(0), A::K(1))]), choice(0)]),
             mk!(x0, x1, x2, proto_vulcan!([x0 != 1, conde { x0 == 1, x0 == 2, x0 == 3 }])), false),
+        // C12: the `for` macro; a body of several clauses is their conjunction, for every element
+        ("for[x0,x1]{x!=1,conde{x==1,x==2}}", G::For(vec![A::V(0), A::V(1)], Box::new(G::Conj(0, vec![G::Ne(vec![(A::V(3), A::K(1))]), G::Disj(0, vec![vec![G::Eq(3, 1)], vec![G::Eq(3, 2)]])]))),
+            mk!(x0, x1, x2, { let coll = vec![x0.clone(), x1.clone()]; proto_vulcan!(for x in &coll { x != 1, conde { x == 1, x == 2 } }) }), false),
+        ("for[2,1]{x!=1,conde{x==1,x==2}}", G::For(vec![A::K(2), A::K(1)], Box::new(G::Conj(0, vec![G::Ne(vec![(A::V(3), A::K(1))]), G::Disj(0, vec![vec![G::Eq(3, 1)], vec![G::Eq(3, 2)]])]))),
+            mk!(x0, x1, x2, { let coll: Vec<T> = vec![LTerm::from(2isize), LTerm::from(1isize)]; proto_vulcan!(for x in &coll { x != 1, conde { x == 1, x == 2 } }) }), false),
+        ("for[x0,x0,x2]{conde{x==1,x==2}}", G::For(vec![A::V(0), A::V(0), A::V(2)], Box::new(G::Disj(0, vec![vec![G::Eq(3, 1)], vec![G::Eq(3, 2)]]))),
+            mk!(x0, x1, x2, { let coll = vec![x0.clone(), x0.clone(), x2.clone()]; proto_vulcan!(for x in &coll { conde { x == 1, x == 2 } }) }), false),
+        ("for[]{false}", G::For(vec![], Box::new(G::Fail)),
+            mk!(x0, x1, x2, { let coll: Vec<T> = vec![]; proto_vulcan!(for x in &coll { false }) }), false),
+        ("for[x0]{[x!=7,false]}", G::For(vec![A::V(0)], Box::new(G::Conj(0, vec![G::Ne(vec![(A::V(3), A::K(7))]), G::Fail]))),
+            mk!(x0, x1, x2, { let coll = vec![x0.clone()]; proto_vulcan!(for x in &coll { [x != 7, false] }) }), false),
     ];
     for (name, g, mk, ordered) in cases {
         rep.case("macro-syntax", format!("macro {}", name));
+        if name.starts_with("for") { rep.case("for-everyg", format!("macro {}", name)); }
         let exp: Vec<Vec<String>> = sem(&g, &Sub::new()).iter().map(|s| s.observe()).collect();
         let out = guard_timeout(move || {
             let vars: Vec<T> = vec![LTerm::var("x0"), LTerm::var("x1"), LTerm::var("x2")];
@@ -536,7 +548,7 @@ fn macro_scenarios(rep: &mut Report) {
             Ok(got) => {
                 let (mut a, mut b) = (got.clone(), exp.clone());
                 if !ordered { a.sort(); b.sort(); }
-                if a != b { rep.fail("macro-syntax", name.to_string(), format!("{:?}", exp), format!("{:?}", got), "macro"); }
+                if a != b { rep.fail("macro-syntax", name.to_string(), format!("{:?}", exp), format!("{:?}", got), "macro"); if name.starts_with("for") { rep.fail("for-everyg", name.to_string(), format!("{:?}", exp), format!("{:?}", got), "macro"); } }
             }
             Err(e) => rep.fail("macro-syntax", name.to_string(), format!("{:?}", exp), e, "panic"),
         }
